@@ -86,6 +86,15 @@ Proof.
 Qed.
 
 
+Lemma cnt_le : forall (p q : instr -> bool) thr, (forall i, p i = true -> q i = true) -> cnt p thr <= cnt q thr.
+Proof.
+  intros p q thr H. induction thr as [|[n prog] thr]; simpl; auto.
+  assert (cntl p prog <= cntl q prog).
+  { unfold cntl. induction prog; simpl; auto. destruct (p a) eqn:E; [rewrite (H _ E); simpl; lia|destruct (q a); simpl; lia]. }
+  lia.
+Qed.
+
+
 (* ---- fields no registry region touches ---- *)
 Definition same_frame (st st' : state) : Prop :=
   threads st' = threads st /\ ntrig st' = ntrig st /\ allsubs st' = allsubs st /\ shut st' = shut st /\ rctx st' = rctx st.
